@@ -159,7 +159,7 @@ type attempt struct {
 }
 
 func genC05E2E(r *vh.Runner) {
-	n := r.Pick(48, 3000)
+	n := r.Pick(400, 20000)
 	for i := 0; i < n; i++ {
 		r.Case(fmt.Sprintf("login-history/%d", i), map[string]any{"i": i}, func(c *vh.Case) {
 			rng := vh.NewRand(r.Seed, "c05-e2e", i)
@@ -340,13 +340,68 @@ func genC07(r *vh.Runner) {
 			r.Nontrivial("directed|" + d.name)
 		})
 	}
-	n := r.Pick(64, 4000)
+	genC07Concurrent(r)
+	n := r.Pick(320, 16000)
 	for i := 0; i < n; i++ {
 		r.Case(fmt.Sprintf("grant-history/%d", i), map[string]any{"i": i}, func(c *vh.Case) {
 			rng := vh.NewRand(r.Seed, "c07-hist", i)
 			gs, steps := randGrantHistory(r, rng)
 			runGrantHistory(r, c, rng, gs, steps, false)
 			r.Nontrivial(fmt.Sprintf("hist|%d", i))
+		})
+	}
+}
+
+// genC07Concurrent: one stored grant, several simultaneous grant look-ups for
+// its (user, key) at the function boundary the session code uses: the grants
+// may be handed out once (a second session holding them could spend them again).
+func genC07Concurrent(r *vh.Runner) {
+	batches := r.Pick(32, 640)
+	const rounds = 1500
+	for b := 0; b < batches; b++ {
+		r.Case(fmt.Sprintf("concurrent-consume/%d", b), map[string]any{"batch": b, "rounds": rounds}, func(c *vh.Case) {
+			x := newWorld(true, "open")
+			defer x.teardown()
+			ids := []*fix.Identity{fix.SelfSigned()}
+			g := cmdGrant("true", -time.Hour, time.Hour)
+			in := g.intent(ids)
+			workers := 2 + b%3
+			for k := 0; k < rounds && !c.Violated(); k++ {
+				if err := x.hs.AddAuthGrant(&in); err != nil {
+					c.Inconclusive("AddAuthGrant: " + err.Error())
+					return
+				}
+				var start, done sync.WaitGroup
+				start.Add(1)
+				got := make([]int, workers)
+				for w := 0; w < workers; w++ {
+					done.Add(1)
+					go func() {
+						defer done.Done()
+						start.Wait()
+						if ags, err := x.hs.AuthorizeKeyAuthGrant("alice", ids[0].Key.Public); err == nil {
+							got[w] = len(ags)
+						}
+					}()
+				}
+				start.Done()
+				done.Wait()
+				total, holders := 0, 0
+				for _, n := range got {
+					total += n
+					if n > 0 {
+						holders++
+					}
+				}
+				r.Count("evaluations", 1)
+				if total > 1 {
+					c.Violate("C07:one-grant-handed-to-several-sessions", map[string]any{"round": k, "workers": workers, "grants_handed_out": got})
+				}
+				if holders == 1 {
+					r.Count("concurrent_lookups_one_winner", 1)
+				}
+			}
+			r.Nontrivial(fmt.Sprintf("concurrent-consume|%d", b))
 		})
 	}
 }
